@@ -5,12 +5,14 @@ import dns
 SLICE = "STORE (ResourceRecordManager operations through the hook wrappers, then build_reply on query packets)"
 RULE = ("stores reached by sequences of add-authoritative / add-cached / remove / clear over names drawn from an alphabet chosen to "
         "collide under concatenation and under byte prefixes (foo.bar vs foobar, _my vs _mysrv, officeprinter vs printer.office, "
-        "labels whose length byte equals a letter); bounded-exhaustive for small stores (every subset of <= 3 of the record pool) x "
+        "labels whose length byte equals a letter, a label containing a dot vs the same text split into labels); bounded-exhaustive for small stores (every subset of <= 3 of the record pool) x "
         "every question over the name pool x QTYPE/QCLASS incl. ANY / MAILB, seeded random beyond; SRV records whose targets own "
         "A/AAAA records. Oracle: a label-wise python matcher. non-trivial = a reply is produced")
 NAMES = [[b"local"], [b"foo", b"local"], [b"bar", b"foo", b"local"], [b"foobar", b"local"], [b"foo", b"bar", b"local"],
          [b"_my", b"local"], [b"_mysrv", b"local"], [b"officeprinter", b"local"], [b"printer", b"office", b"local"],
-         [b"office", b"local"], [b"\x03foo", b"local"], [b"a", b"_my", b"local"], [b"\xff\xfe", b"local"], [b"FOO", b"local"]]
+         [b"office", b"local"], [b"\x03foo", b"local"], [b"a", b"_my", b"local"], [b"\xff\xfe", b"local"], [b"FOO", b"local"],
+         # a label holding a dot (DNS-SD instance names do) against the name with the dot as a label separator
+         [b"printer.office", b"local"], [b"office", b"printer", b"local"], [b"printer", b"local"]]
 INFO = {}
 
 
